@@ -173,7 +173,8 @@ PROPS = {
         not_covered=["Euler's criterion (A8) is what turns `x^((q-1)/2) in {0, 1}` into `x is a square` and the sqrt statement into y^2 = x; Fr::sqrt (Tonelli-Shanks, r = 1 mod 4) is not under contract",
                      "that e(a) = 1 whenever Algorithm 9 returns Some, and that it returns None only for non-squares (A8': Frobenius is additive and a^((q^2-1)/2) = +-1) - number theory, not proved; the stand-in fq2_sqrt_order exercises it"],
         assumptions=[A['A8'], "A8' correctness of Adj/Rodriguez-Henriquez Algorithm 9", A['D_FQ'], "(-y)^2 = y^2 in Fq2 stated as a ring fact (lemma_neg_sq2)",
-                     "ring laws of the schoolbook Fq2 product (commutative, associative, 1 and -1 act as expected, u^2 = -1) and the laws of powers are stated as axioms in unit order (polynomial identities in the coefficients)", A['TOOLS']],
+                     "the ring laws of the schoolbook Fq2 product used by the sqrt proof (commutative, associative, 1 and -1 act as expected, u^2 = -1) are proved in unit order from the definitions; "
+                     "the laws of powers (x^a x^b = x^(a+b), x^1 = x) are axioms there, as is NEGATIVE_ONE = -1 (checked as a closed term in unit consts)", A['TOOLS']],
     ),
     'C15': dict(
         units_quick=['sswu', 'sswuhelp', 'order', 'consts'], units_thorough=['sswu', 'sswuhelp', 'order', 'consts', 'tower'], timeout=1800,
